@@ -176,6 +176,6 @@ def d3_metadata(ctx):
 
 
 def run(ctx):
-    d1_tiling(ctx)
-    d2_decimation(ctx)
-    d3_metadata(ctx)
+    ctx.run(d1_tiling)
+    ctx.run(d2_decimation)
+    ctx.run(d3_metadata)
